@@ -40,7 +40,7 @@ LEVEL_TEXT = (
     'Exploration of call histories: every output in long-lived processes (random histories, interleaved iterators, caching on/off, page subsets, allocator perturbation) is compared with the output of a fresh interpreter process for the same bytes and options, and process-wide tables are fingerprinted after every call. Right level: purity is a property of all histories; differential comparison against a history-free execution is exact, and the pool is built to collide on every cache key the code uses.'
 )
 RULE = (
-    "pool of 20 colliding documents; baselines = each (document, API) in a fresh subprocess; histories = 20-60 random calls "
+    "pool of 40 colliding documents (see coverage.pool); baselines = each (document, API) in a fresh subprocess; histories = 20-60 random calls "
     "(API in {extract_text, extract_pages, to_fp text, to_fp xml} x caching {on,off} x page subset x page-at-a-time) and "
     "schedules interleaving 2-4 live extract_pages iterators step by step; every output compared with the baseline; shared "
     "tables fingerprinted after every call. distinct = distinct histories (by call sequence); non-trivial = history uses "
